@@ -181,7 +181,8 @@ contract("asn1:_read_asn1_set", **_READ_COMMON,
                   _tagmatch(17, "True"),
                   "implies(header is not None and tag is not None, header.tag == tag)"])
 contract("asn1:_read_asn1_boolean", **_READ_COMMON,
-         ensures=["result[0] == (not (len(%s) == 1 and %s[0] == 0))" % (_CONTENT, _CONTENT),
+         # X.690 8.2: one content octet, FALSE = 0, TRUE = any other value (contents of another length are malformed: no claim)
+         ensures=["implies(len(%s) == 1, result[0] == (%s[0] != 0))" % (_CONTENT, _CONTENT),
                   "result[1] == " + _CONSUMED, "result[1] <= len(data)", "result[1] >= 0",
                   _tagmatch(1, "False"),
                   "implies(header is not None and tag is not None, header.tag == tag)"])
@@ -304,7 +305,7 @@ contract("asn1:ASN1Reader.get_remaining_data",
 contract("asn1:ASN1Reader.read_octet_string", **_RCOMMON,
          ensures=["result == " + _RCONTENT] + _ADV + [_rtagmatch(4, "False")])
 contract("asn1:ASN1Reader.read_boolean", **_RCOMMON,
-         ensures=["result == (not (len(%s) == 1 and %s[0] == 0))" % (_RCONTENT, _RCONTENT)] + _ADV + [_rtagmatch(1, "False")])
+         ensures=["implies(len(%s) == 1, result == (%s[0] != 0))" % (_RCONTENT, _RCONTENT)] + _ADV + [_rtagmatch(1, "False")])
 contract("asn1:ASN1Reader.read_integer", **_RCOMMON,
          ensures=["len(%s) >= 1" % _RCONTENT, "result == tc(%s)" % _RCONTENT] + _ADV + [_rtagmatch(2, "False")])
 contract("asn1:ASN1Reader.read_sequence", **_RCOMMON,
@@ -498,4 +499,4 @@ contract("specs.ber:lemma_integer_roundtrip",
                   "id_class(cat(w, rest)) == tag_class", "id_number(cat(w, rest)) == number", "id_constructed(cat(w, rest)) == constructed"])
 contract("specs.ber:lemma_boolean_roundtrip",
          requires=["tlv_of(w, tag_class, constructed, number, seq1(255 if value else 0))"],
-         ensures=["(not (len(content_of(cat(w, rest))) == 1 and content_of(cat(w, rest))[0] == 0)) == value", "rest_of(cat(w, rest)) == rest"])
+         ensures=["len(content_of(cat(w, rest))) == 1", "(content_of(cat(w, rest))[0] != 0) == value", "rest_of(cat(w, rest)) == rest"])
